@@ -18,6 +18,7 @@ import (
 	"github.com/evolbioinfo/gotree/io/utils"
 	"github.com/evolbioinfo/gotree/tree"
 
+	"verif/internal/cli"
 	"verif/internal/docs"
 	"verif/internal/gen"
 	"verif/internal/h"
@@ -34,6 +35,7 @@ type Case struct {
 	Other   []byte          `json:"other,omitempty"`
 	Muts    []docs.Mutation `json:"muts,omitempty"`
 	Preview string          `json:"preview,omitempty"` // first bytes of the final document, for the reader of the evidence
+	CLI     bool            `json:"cli,omitempty"`     // also through the command line
 }
 
 func (c Case) Doc() []byte {
@@ -135,7 +137,30 @@ var lastOutcome outcome
 func check(c Case) error {
 	o, err := run(c)
 	lastOutcome = o
+	if err == nil && c.CLI {
+		err = runCLI(c)
+	}
 	return err
+}
+
+// runCLI gives the document to the command-line readers: `gotree reformat newick --input-format f`
+// (multi-tree reader) and `gotree stats rooted --format f`; the process must end by itself without a
+// Go panic trace, whatever its exit status.
+func runCLI(c Case) error {
+	if !cli.Available() {
+		return nil
+	}
+	doc := string(c.Doc())
+	for _, args := range [][]string{{"reformat", "newick", "--input-format", c.Reader}, {"stats", "rooted", "--format", c.Reader}, {"unroot", "--format", c.Reader, "-o", "out.nw"}} {
+		r := cli.Run(cli.Scratch(), doc, args...)
+		if r.TimedOut {
+			return fmt.Errorf("gotree %v did not finish on this input", args)
+		}
+		if r.Panicked() {
+			return fmt.Errorf("gotree %v crashed: %s", args, clip(r.Stderr))
+		}
+	}
+	return nil
 }
 
 func run(c Case) (outcome, error) {
@@ -349,6 +374,7 @@ func genCase(t *rapid.T, thorough bool) Case {
 		d = d[:120]
 	}
 	c.Preview = strings.ToValidUTF8(string(d), "�")
+	c.CLI = len(c.Doc()) < 5000 && rapid.IntRange(0, 29).Draw(t, "cli") == 0
 	return c
 }
 
@@ -366,7 +392,7 @@ func anchors() []Case {
 func TestC02Readers(t *testing.T) {
 	h.Run(t, h.Spec[Case]{
 		Property: "C02", Name: "readers", Quick: 40000, Thorough: 1600000, Timeout: 15 * time.Second,
-		Rule: "documents of the five formats written by independent writers from generated trees (multi-Newick layouts, Nexus with TAXA/DATA/TRANSLATE/unknown blocks and comments, PhyloXML, Nextstrain v2), hostile constants, deep nesting, random bytes, cross-format input; 0-4 byte-level mutations (truncate, delete, duplicate, insert dictionary token or random bytes, flip, splice with a second document, replace, swap); every document goes through the format's parser, ReadTreeReader and ReadMultiTrees (drained); every delivered tree is traversed, indexed and written (Newick, Nexus +-translate, PhyloXML, Clone). Oracle: everything returns within 15 s, no panic on any goroutine, no record without tree and error. Non-trivial = a mutated valid document or a hostile constant",
+		Rule: "documents of the five formats written by independent writers from generated trees (multi-Newick layouts, Nexus with TAXA/DATA/TRANSLATE/unknown blocks and comments, PhyloXML, Nextstrain v2), hostile constants, deep nesting, random bytes, cross-format input; 0-4 byte-level mutations (truncate, delete, duplicate, insert dictionary token or random bytes, flip, splice with a second document, replace, swap); every document goes through the format's parser, ReadTreeReader and ReadMultiTrees (drained); every delivered tree is traversed, indexed and written (Newick, Nexus +-translate, PhyloXML, Clone). 3% of the documents also go through the command line (`reformat newick --input-format`, `stats rooted --format`, `unroot -o`): the process must end without a Go panic trace. Oracle: everything returns within 15 s, no panic on any goroutine, no record without tree and error. Non-trivial = a mutated valid document or a hostile constant",
 		Gen:   genCase,
 		Check: check,
 		Anchors: anchors(),
@@ -380,6 +406,9 @@ func TestC02Readers(t *testing.T) {
 				l = append(l, c.Reader+":delivered")
 			default:
 				l = append(l, c.Reader+":error")
+			}
+			if c.CLI {
+				l = append(l, "cli")
 			}
 			if !utf8.Valid(c.Doc()) {
 				l = append(l, "invalid-utf8")
